@@ -31,12 +31,28 @@ def run(ctx):
     cases = graphs.case_stream(rng, 70 if ctx.quick else 600, max_e=6 if ctx.quick else 8, accepted_fraction=0.5)
     tuned = []
     for c in cases[: (40 if ctx.quick else 300)]:
-        for delta in (1e-15, -1e-15, 1e-12, -1e-12, 1e-6, -1e-6, 1e-3, -1e-3):
+        for delta in (2.0 ** -60, 1e-17, 1e-15, -1e-15, 1e-12, -1e-12, 1e-6, -1e-6, 1e-3, -1e-3):
             if rng.random() < (0.35 if ctx.quick else 0.6):
                 t = graphs.near_threshold(rng, c, delta)
                 if t is not None:
                     t["name"] = c["name"] + "+tuned"; tuned.append(t)
     cases += tuned
+    # rejected graphs whose divergent subsets are all of one structural kind (disconnected / forests / spanning / single)
+    cases += graphs.structured_rejections(rng, 4 if ctx.quick else 25)
+    # box / pentagon with two adjacent externals and the massive edge opposite: the divergent subset is disconnected
+    for k in (4, 5):
+        for D in (3, 4):
+            edges = [(i, (i + 1) % k) for i in range(k)]
+            massive = [i == 2 for i in range(k)]
+            w = [1.0] * k
+            dod, Lf, table = oracle.table_oracle(edges, w, massive, [0, 1], D)
+            cases.append(dict(edges=edges, weights=w, massive=massive, ext=[0, 1], D=D, table=table, dod=dod, loops=Lf,
+                              accepted=not oracle.divergent_subsets(table), name="cycle_massive_opposite"))
+    # the same endpoints, weights and externals under another mass pattern (history inside one process)
+    for c in list(cases[: (25 if ctx.quick else 200)]):
+        c2 = graphs.remass(rng, c)
+        if c2 is not None:
+            c2 = dict(c2); c2["name"] = c["name"] + "+remass"; cases.append(c2)
     reqs = [graphs.request(c) for c in cases]
     # determinism: second copy of every request, shuffled, in the same process
     order = list(range(len(reqs))); rng.shuffle(order)
@@ -53,6 +69,8 @@ def run(ctx):
                  sample={"edges": c["edges"], "weights": c["weights"], "massive": c["massive"], "ext": c["ext"], "D": c["D"],
                          "exact_accepted": c["accepted"], "impl": a.get("status")} if i % 40 == 0 else None)
         ctx.count(f"impl.{a.get('status')}"); ctx.count(f"exact.{'accepted' if c['accepted'] else 'rejected'}")
+        if not c["accepted"]:
+            ctx.count("rejection." + graphs.classify_rejection(c))
         if "tuned" in c:
             ctx.count("near_threshold")
         # correspondence: Ok/Err
